@@ -199,7 +199,7 @@ pub fn run(_op: &str, a: &Ints) -> Ints {
             Ok(out)
         }),
         // ---- C03/C19: binary operator on two Dual / Dual2: kind opcode p a b
-        //      opcode 0 add 1 sub 2 mul 3 div 4 rem 5 == 6 < 7 <= 8 > 9 >=
+        //      opcode 0 add 1 sub 2 mul 3 div 4 rem 5 == 6 < 7 <= 8 > 9 >= 10 abs_sub
         3 => guard(|| {
             let kind = r.next();
             let oc = r.next();
@@ -218,6 +218,7 @@ pub fn run(_op: &str, a: &Ints) -> Ints {
                     6 => out = ob(x < y),
                     7 => out = ob(x <= y),
                     8 => out = ob(x > y),
+                    10 => write_dual(&x.abs_sub(&y), &mut out),
                     _ => out = ob(x >= y),
                 }
             } else {
@@ -233,6 +234,7 @@ pub fn run(_op: &str, a: &Ints) -> Ints {
                     6 => out = ob(x < y),
                     7 => out = ob(x <= y),
                     8 => out = ob(x > y),
+                    10 => write_dual2(&x.abs_sub(&y), &mut out),
                     _ => out = ob(x >= y),
                 }
             }
@@ -409,6 +411,7 @@ pub fn run(_op: &str, a: &Ints) -> Ints {
                 6 => out = ob(x < y),
                 7 => out = ob(x <= y),
                 8 => out = ob(x > y),
+                10 => write_number(&x.abs_sub(&y), &mut out),
                 _ => out = ob(x >= y),
             }
             Ok(out)
@@ -444,7 +447,7 @@ pub fn run(_op: &str, a: &Ints) -> Ints {
             Ok(out)
         }),
         // unary on Number: 0 neg(owned) 1 neg(ref) 2 pow(p) 3 exp 4 log 5 ncdf 6 nicdf 7 abs 8 signum
-        //                  9 is_zero 10 zero 11 one 12 pow ref
+        //                  9 is_zero 10 zero 11 one 12 pow ref 13 is_positive 14 is_negative
         14 => guard(|| {
             let oc = r.next();
             let x = read_number(&mut r);
@@ -463,6 +466,8 @@ pub fn run(_op: &str, a: &Ints) -> Ints {
                 9 => out = ob(x.is_zero()),
                 10 => write_number(&Number::zero(), &mut out),
                 11 => write_number(&Number::one(), &mut out),
+                13 => out = ob(x.is_positive()),
+                14 => out = ob(x.is_negative()),
                 _ => write_number(&(&x).pow(p), &mut out),
             }
             Ok(out)
@@ -486,6 +491,129 @@ pub fn run(_op: &str, a: &Ints) -> Ints {
             let v: Vec<Number> = (0..n).map(|_| read_number(&mut r)).collect();
             let mut out = vec![];
             write_number(&v.into_iter().sum::<Number>(), &mut out);
+            Ok(out)
+        }),
+        // From conversions out of / into the plain kinds (C18): 17 0 f | 17 1 dual | 17 2 dual2
+        17 => guard(|| {
+            let kind = r.next();
+            let mut out = vec![];
+            match kind {
+                0 => {
+                    let f = read_f(&mut r);
+                    write_dual(&Dual::from(f), &mut out);
+                    write_dual2(&Dual2::from(f), &mut out);
+                    write_number(&Number::from(f), &mut out);
+                    write_number(&Number::from(&f), &mut out);
+                }
+                1 => {
+                    let x = read_dual(&mut r);
+                    out.push(f2i(f64::from(x.clone())));
+                    out.push(f2i(f64::from(&x)));
+                    write_number(&Number::from(&x), &mut out);
+                    write_number(&Number::from(x), &mut out);
+                }
+                _ => {
+                    let x = read_dual2(&mut r);
+                    out.push(f2i(f64::from(x.clone())));
+                    out.push(f2i(f64::from(&x)));
+                    write_number(&Number::from(&x), &mut out);
+                    write_number(&Number::from(x), &mut out);
+                }
+            }
+            Ok(out)
+        }),
+        // constructors on another number's variables (C03 / C20):
+        //   22 try_new_from: kind okind other-names re names nd du* [ndd dd*]
+        //   23 new_from:     kind okind other-names re names
+        //   (other = a number of kind okind built on other-names; only its vars() are used)
+        22 | 23 => guard(|| {
+            let kind = r.next();
+            let okind = r.next();
+            let os = read_names(&mut r);
+            let o1 = Dual::new(0.5, os.clone());
+            let o2 = Dual2::new(0.5, os);
+            let re = read_f(&mut r);
+            let ws = read_names(&mut r);
+            let mut out = vec![];
+            if op == 23 {
+                if kind == 1 {
+                    let d = if okind == 1 { Dual::new_from(&o1, re, ws) } else { Dual::new_from(&o2, re, ws) };
+                    write_dual(&d, &mut out);
+                } else {
+                    let d = if okind == 1 { Dual2::new_from(&o1, re, ws) } else { Dual2::new_from(&o2, re, ws) };
+                    write_dual2(&d, &mut out);
+                }
+                return Ok(out);
+            }
+            let nd = r.next() as usize;
+            let du = read_fs(&mut r, nd);
+            if kind == 1 {
+                let res = if okind == 1 { Dual::try_new_from(&o1, re, ws, du) } else { Dual::try_new_from(&o2, re, ws, du) };
+                match res {
+                    Ok(d) => write_dual(&d, &mut out),
+                    Err(_) => return Err(()),
+                }
+            } else {
+                let ndd = r.next() as usize;
+                let dd = read_fs(&mut r, ndd);
+                let res = if okind == 1 {
+                    Dual2::try_new_from(&o1, re, ws, du, dd)
+                } else {
+                    Dual2::try_new_from(&o2, re, ws, du, dd)
+                };
+                match res {
+                    Ok(d) => write_dual2(&d, &mut out),
+                    Err(_) => return Err(()),
+                }
+            }
+            Ok(out)
+        }),
+        // 24 to_new_vars(target, None) called directly: kind mode x target-names
+        //    mode 1 = the target is x's own Arc, mode 0 = a separately built list;
+        //    then ptr_eq(result, holder of the target) and ptr_eq(x, holder of the target)
+        24 => guard(|| {
+            let kind = r.next();
+            let mode = r.next();
+            let mut out = vec![];
+            if kind == 1 {
+                let x = read_dual(&mut r);
+                let ws = read_names(&mut r);
+                let holder = if mode == 1 { x.clone() } else { Dual::new(0.0, ws) };
+                let y = x.to_new_vars(holder.vars(), None);
+                write_dual(&y, &mut out);
+                out.push(y.ptr_eq(&holder) as i128);
+                out.push(x.ptr_eq(&holder) as i128);
+            } else {
+                let x = read_dual2(&mut r);
+                let ws = read_names(&mut r);
+                let holder = if mode == 1 { x.clone() } else { Dual2::new(0.0, ws) };
+                let y = x.to_new_vars(holder.vars(), None);
+                write_dual2(&y, &mut out);
+                out.push(y.ptr_eq(&holder) as i128);
+                out.push(x.ptr_eq(&holder) as i128);
+            }
+            Ok(out)
+        }),
+        // 25 to_union_vars(&y, None) called directly: kind p x y -> both results, then ptr_eq of the two results
+        25 => guard(|| {
+            let kind = r.next();
+            let p = r.next();
+            let mut out = vec![];
+            if kind == 1 {
+                let x = read_dual(&mut r);
+                let y = share1(&x, read_dual(&mut r), p);
+                let (a, b) = x.to_union_vars(&y, None);
+                write_dual(&a, &mut out);
+                write_dual(&b, &mut out);
+                out.push(a.ptr_eq(&b) as i128);
+            } else {
+                let x = read_dual2(&mut r);
+                let y = share2(&x, read_dual2(&mut r), p);
+                let (a, b) = x.to_union_vars(&y, None);
+                write_dual2(&a, &mut out);
+                write_dual2(&b, &mut out);
+                out.push(a.ptr_eq(&b) as i128);
+            }
             Ok(out)
         }),
         // constructors (C20 reuse): 20 Dual::try_new(re, names, du) | 21 Dual2::try_new(re, names, du, dd)
